@@ -426,7 +426,7 @@ REGISTRY = {
     "C14": Prop(
         targets=["PsProps.C14"],
         theorems=[("PsProps.C14", "Ps.Props.C14_mutable_globals"), ("PsProps.C14", "Ps.Props.C14_interleaving")],
-        tie=combine(("multi", streams.MULTI.tie)), witness=combine_witness(streams.MULTI.witness),
+        tie=combine(("multi", streams.MULTI.tie), ("mt", streams.MT.tie)), witness=combine_witness(streams.MULTI.witness, streams.MT.witness),
         assumptions=ITER_ASSUME + ["the inventory of variables with static storage duration is a textual scan "
                                    "(translator/translate.py) of src/*.cpp, include/**/*.hpp (verification hooks excluded)"],
         undischarged=["concurrent user threads: data-race freedom under the C++ memory model is not expressible; the "
